@@ -110,6 +110,9 @@ class C16(Prop):
                 item["inner"] = [{"op": "len", "name": rng.choice(["message", "pdu", "pdu", "varbinds", "varbind", "scoped-pdu", "usm", "sec-params", "global"]), "delta": -rng.choice([1, 1, 2])}]
             else:
                 item["inner"] = [{"op": "len_past_parent", "node": rng.randrange(0, 64), "delta": rng.choice([1, 1, 2, 5, 100, 1000, 2**16, 2**32, 2**32 + 1, 2**40, 2**56])}]
+                if rng.random() < 0.2:
+                    # the true length plus 2^16 / 2^32 / 2^64: equal to it after truncation to 16 / 32 / 64 bits
+                    item["inner"] = [{"op": "len_form", "node": rng.randrange(1, 64), "form": rng.choice(["alias64", "alias64", "alias32", "alias16"])}]
             scripts["%d:1" % opid] = {"replies": [item, {"k": "genuine", "delay_ns": 50_001}] if rng.random() < 0.3 else [item]}
         return {"flavour": flavour, "agent": agent, "sessions": [sess], "ops": ops, "scripts": scripts, "latency_ns": 1001, "fam": family}
 
